@@ -802,6 +802,11 @@ func (engine) Generate(r *lib.Rng, tier string, i int) any {
 	if tier == "thorough" {
 		g.budget, g.maxDepth = 11, 3
 	}
+	if r.Chance(1, 25) {
+		// a nil result of an interface-typed node / graph (direct oracle only: the model has no nil)
+		sp := &NilSpec{Shape: r.Intn(8), Nat: g.natSubset(), NChunk: r.Range(1, 2), DAG: r.Chance(1, 2), Pipe: r.Chance(1, 2)}
+		return &Case{Kind: "nilout", Nil: sp}
+	}
 	if r.Chance(1, 4) {
 		// one packed lambda, all four views
 		sp := g.nspec(r.Intn(4))
